@@ -167,4 +167,254 @@ theorem neg_guard_bounds (Q K Sf mant M j L : Nat) (be : Int) (hbe : be = (K : I
         _ ≤ 2 ^ 55 * 5 ^ 1093 := Nat.mul_le_mul (by omega) h5j
         _ < 2 ^ 3968 := c2
 
+/-! ## the value of all the digits lies in `[w, w + 1)·10^q` -/
+
+/-- `S = w·10^A + tail` with `tail < 10^A`, `q = A + E − fl`: then `S·10^(E − fl) ∈ [w·10^q, (w+1)·10^q)`, in the
+cross-multiplied form `estW_widen` takes -/
+theorem interval_core (S w A fl : Nat) (q E : Int) (hS1 : w * 10 ^ A ≤ S) (hS2 : S < (w + 1) * 10 ^ A) (hw0 : 0 < w)
+    (hq : q = (A : Int) + E - fl) :
+    (powFrac 10 q w).1 * (10 ^ fl * 10 ^ (-E).toNat) ≤ S * 10 ^ E.toNat * (powFrac 10 q w).2 ∧
+    S * 10 ^ E.toNat * (powFrac 10 q w).2 * w < (powFrac 10 q w).1 * (10 ^ fl * 10 ^ (-E).toNat) * (w + 1) := by
+  rw [powFrac_eq]
+  dsimp only
+  have hexp : q.toNat + (fl + (-E).toNat) = A + E.toNat + (-q).toNat := by omega
+  generalize q.toNat = a at *
+  generalize (-q).toNat = b at *
+  generalize E.toNat = e1 at *
+  generalize (-E).toNat = e2 at *
+  have k1 : w * 10 ^ a * (10 ^ fl * 10 ^ e2) = w * 10 ^ A * (10 ^ e1 * 10 ^ b) := by
+    calc w * 10 ^ a * (10 ^ fl * 10 ^ e2) = w * 10 ^ (a + (fl + e2)) := by rw [Nat.pow_add, Nat.pow_add]; ring
+      _ = w * 10 ^ A * (10 ^ e1 * 10 ^ b) := by rw [hexp, Nat.pow_add, Nat.pow_add]; ring
+  have k2 : (w + 1) * 10 ^ a * (10 ^ fl * 10 ^ e2) = (w + 1) * 10 ^ A * (10 ^ e1 * 10 ^ b) := by
+    calc (w + 1) * 10 ^ a * (10 ^ fl * 10 ^ e2) = (w + 1) * 10 ^ (a + (fl + e2)) := by
+          rw [Nat.pow_add, Nat.pow_add]; ring
+      _ = (w + 1) * 10 ^ A * (10 ^ e1 * 10 ^ b) := by rw [hexp, Nat.pow_add, Nat.pow_add]; ring
+  have hpos : 0 < 10 ^ e1 * 10 ^ b := Nat.mul_pos (Nat.pow_pos (by decide)) (Nat.pow_pos (by decide))
+  constructor
+  · rw [k1]
+    calc w * 10 ^ A * (10 ^ e1 * 10 ^ b) ≤ S * (10 ^ e1 * 10 ^ b) := Nat.mul_le_mul_right _ hS1
+      _ = S * 10 ^ e1 * 10 ^ b := by ring
+  · calc S * 10 ^ e1 * 10 ^ b * w = (S * (10 ^ e1 * 10 ^ b)) * w := by ring
+      _ < ((w + 1) * 10 ^ A * (10 ^ e1 * 10 ^ b)) * w :=
+          Nat.mul_lt_mul_of_pos_right (Nat.mul_lt_mul_of_pos_right hS2 hpos) hw0
+      _ = ((w + 1) * 10 ^ a * (10 ^ fl * 10 ^ e2)) * w := by rw [k2]
+      _ = w * 10 ^ a * (10 ^ fl * 10 ^ e2) * (w + 1) := by ring
+
+/-- every build's decimal digit limit is between 19 and 769 -/
+theorem maxDigits_decimal_le (feats : Features) {F : FTy} (hF : IsLemireFloat F) :
+    ∃ d, (Slow.envOf feats).S.maxDigits F.fmt 10 = some d ∧ 19 ≤ d ∧ d ≤ 769 := by
+  obtain ⟨c, p2, r, f, sd⟩ := feats
+  rcases hF with h | h <;> subst h <;> cases c <;> cases p2 <;> cases r <;> exact ⟨_, rfl, by decide, by decide⟩
+
+/-- what `parse_mantissa` keeps of more than 19 significant digits (at most `d`, or zeros beyond): the first `cnt`
+digits, `19 ≤ cnt ≤ d` -/
+theorem mantissaOf_trunc {d : Nat} {sig : List Nat} (hd19 : 19 ≤ d) (hN : 19 < sig.length)
+    (hfew : sig.length ≤ d ∨ Slow.anyNonzero (sig.drop d) = false) :
+    ∃ cnt, C01Slow.mantissaOf 10 d sig = (ofDigits 10 (dv 10 (sig.take cnt)), cnt) ∧ 19 ≤ cnt ∧ cnt ≤ sig.length ∧
+      cnt ≤ d ∧ ofDigits 10 (dv 10 sig) = ofDigits 10 (dv 10 (sig.take cnt)) * 10 ^ (sig.length - cnt) := by
+  by_cases hle : sig.length ≤ d
+  · refine ⟨sig.length, ?_, by omega, Nat.le_refl _, hle, ?_⟩
+    · unfold C01Slow.mantissaOf; rw [if_pos hle, List.take_length]
+    · rw [List.take_length, Nat.sub_self, Nat.pow_zero, Nat.mul_one]
+  · have hz : Slow.anyNonzero (sig.drop d) = false := by
+      rcases hfew with h | h
+      · exact absurd h hle
+      · exact h
+    refine ⟨d, ?_, hd19, by omega, Nat.le_refl _, ?_⟩
+    · unfold C01Slow.mantissaOf; rw [if_neg hle, hz]; simp
+    · have := C01Number.ofDigits_dv_take_drop 10 sig d
+      rw [C01Slow.ofDigits_zero_tail 10 _ hz, Nat.add_zero, List.length_drop] at this
+      exact this
+
+/-! ## `SlowDomain` and the bracket for a truncated `Number` -/
+
+/-- **`SlowDomain` and the pipeline's bracket for the truncated decimal `Number`s**: the words of the `Number` are the
+first 19 significant digits and the matching exponent (`number_truncated_of_syntax`); `lemire` handed over an
+estimate `fp` of `w·10^q` from inside the table; at most `d = max_digits` significant digits, or zeros beyond; the
+estimate rounds down to a finite float when `negative_digit_comp` is the one called (`hfin`). Then every condition of the
+slow-path model's domain holds, and `fp` brackets the value of all the digits. -/
+theorem slowDomain_of_truncated {F : FTy} (hF : IsLemireFloat F) {p eb : Nat} (lay : Layout F p eb) (c : Cfg)
+    (hr : c.mantissaRadix = 10) (hb : c.exponentBase = 10) (n : Number) (hs : PlainSlices c n)
+    (hN : 19 < (sigBytes n.integer n.fraction).length)
+    (hw : n.mantissa = ofDigits 10 (dv 10 ((sigBytes n.integer n.fraction).take 19)))
+    (hw1 : 10 ^ 18 ≤ n.mantissa) (hw2 : n.mantissa < 10 ^ 19)
+    (hq : n.exponent = ((sigBytes n.integer n.fraction).length : Int) - 19 + n.explicitExp -
+      ((n.fraction.getD []).length : Int))
+    (hq1 : -342 ≤ n.exponent) (hq2 : n.exponent ≤ 308) (fp : ExtendedFloat80)
+    (hest : EstOK F p fp (powFrac 10 n.exponent n.mantissa).1 (powFrac 10 n.exponent n.mantissa).2)
+    (d : Nat) (hd : (Slow.envOf c.feats).S.maxDigits F.fmt 10 = some d) (hd19 : 19 ≤ d) (hd769 : d ≤ 769)
+    (hfew : (sigBytes n.integer n.fraction).length ≤ d ∨
+      Slow.anyNonzero ((sigBytes n.integer n.fraction).drop d) = false)
+    (hfin : C01Slow.digitExponent (sciOf c n) (C01Slow.mantissaOf 10 d (sigBytes n.integer n.fraction)).2 < 0 →
+      C01Slow.roundedDown F { fp with exp := fp.exp - invalidFp } < F.fmt.infBits) :
+    SlowDomain c F p n { fp with exp := fp.exp - invalidFp } d ∧
+    Bracket F fp (litFrac 10 10 (numberLit c n)).1 (litFrac 10 10 (numberLit c n)).2 := by
+  have FN := floatNums_of hF lay
+  have hp := lay.hp
+  have hp53 := FN.p53
+  have h27 : (2 : Int) ^ 27 = 134217728 := by norm_num
+  have h30 : (2 : Int) ^ 30 = 1073741824 := by norm_num
+  have h20 : (2 : Int) ^ 20 = 1048576 := by norm_num
+  have hw64 : n.mantissa < 2 ^ 64 := Nat.lt_trans hw2 pow10_19
+  have hw0 : 0 < n.mantissa := Nat.lt_of_lt_of_le (Nat.pow_pos (by decide)) hw1
+  have hc80 : 2 * 40 ≤ 2 ^ (64 - p) := by
+    calc 2 * 40 ≤ 2 ^ 11 := by decide
+      _ ≤ 2 ^ (64 - p) := Nat.pow_le_pow_right (by decide) (by omega)
+  -- the scientific exponent
+  obtain ⟨T, t1, t2, t3⟩ := scientificExponent_spec (radix := 10) (by decide) (by decide)
+    hw0 hw64 (e := n.exponent) (by omega) (by omega)
+  have hT : T = 18 := by
+    have a1 : 10 ^ T < 10 ^ 19 := Nat.lt_of_le_of_lt t1 hw2
+    have a2 : 10 ^ 18 < 10 ^ (T + 1) := Nat.lt_of_le_of_lt hw1 t2
+    have := (Nat.pow_lt_pow_iff_right (by decide : 1 < 10)).mp a1
+    have := (Nat.pow_lt_pow_iff_right (by decide : 1 < 10)).mp a2
+    omega
+  have hsci : sciOf c n = n.exponent + T := by unfold sciOf; rw [hr, t3]
+  -- the digits
+  have hvs : ValidDigits 10 (sigBytes n.integer n.fraction) := by
+    have := valid_sigBytes hs.validInt hs.validFrac
+    rwa [hr] at this
+  have hbs : ∀ x ∈ sigBytes n.integer n.fraction, x < 256 := by
+    intro x hx
+    rcases mem_sigBytes hx with h | ⟨fr, hfr, h⟩
+    · exact hs.bytesInt x h
+    · exact hs.bytesFrac fr hfr x h
+  obtain ⟨z, hz⟩ := sig_decomp n.integer n.fraction
+  have hD : ofDigits 10 ((numberLit c n).intDigits ++ (numberLit c n).fracDigits) =
+      ofDigits 10 (dv 10 (sigBytes n.integer n.fraction)) := by
+    rw [hs.intDigits, hs.fracDigits, hr]
+    have : dv 10 n.integer ++ dv 10 (n.fraction.getD []) = dv 10 (n.integer ++ n.fraction.getD []) := by
+      unfold dv; rw [List.map_append]
+    rw [this, hz, ofDigits_dv_zeros]
+  have hfl : (numberLit c n).fracDigits.length = (n.fraction.getD []).length := by
+    rw [hs.fracDigits, dv_length]
+  have hE : (numberLit c n).exp = n.explicitExp := rfl
+  obtain ⟨cnt, hmo, hc19, hcN, hcd, hSM⟩ := mantissaOf_trunc hd19 hN hfew
+  -- the kept digits `M` lie in `[w, w + 1)·10^(cnt − 19)`
+  have hMsplit := C01Number.ofDigits_dv_take_drop 10 ((sigBytes n.integer n.fraction).take cnt) 19
+  have hMtail := ofDigits_dv_lt (valid_drop (valid_take hvs cnt) 19)
+  have hMlt := ofDigits_dv_lt (valid_take hvs cnt)
+  rw [List.take_take, Nat.min_eq_left hc19, ← hw, List.length_drop, List.length_take, Nat.min_eq_left hcN] at hMsplit
+  rw [List.length_drop, List.length_take, Nat.min_eq_left hcN] at hMtail
+  rw [List.length_take, Nat.min_eq_left hcN] at hMlt
+  have hne : sigBytes n.integer n.fraction ≠ [] := by
+    intro h0; rw [h0] at hN; simp at hN
+  generalize hsig : sigBytes n.integer n.fraction = sig at *
+  generalize hS : ofDigits 10 (dv 10 sig) = S at *
+  generalize hMv : ofDigits 10 (dv 10 (sig.take cnt)) = M at *
+  generalize hfle : (n.fraction.getD []).length = fl at *
+  generalize htl : ofDigits 10 (dv 10 (List.drop 19 (List.take cnt sig))) = tl at *
+  have hM1 : n.mantissa * 10 ^ (cnt - 19) ≤ M := by omega
+  have hM2 : M < (n.mantissa + 1) * 10 ^ (cnt - 19) := by
+    have : (n.mantissa + 1) * 10 ^ (cnt - 19) = n.mantissa * 10 ^ (cnt - 19) + 10 ^ (cnt - 19) := by ring
+    omega
+  have hM0 : 0 < M := Nat.lt_of_lt_of_le (Nat.mul_pos hw0 (Nat.pow_pos (by decide))) hM1
+  have hM769 : M < 10 ^ 769 := Nat.lt_of_lt_of_le hMlt (Nat.pow_le_pow_right (by decide) (by omega))
+  have hpw : 10 ^ (cnt - 19) * 10 ^ (sig.length - cnt) = 10 ^ (sig.length - 19) := by
+    rw [← Nat.pow_add]; congr 1; omega
+  have hS1 : n.mantissa * 10 ^ (sig.length - 19) ≤ S := by
+    rw [hSM, ← hpw, ← Nat.mul_assoc]; exact Nat.mul_le_mul_right _ hM1
+  have hS2 : S < (n.mantissa + 1) * 10 ^ (sig.length - 19) := by
+    rw [hSM, ← hpw, ← Nat.mul_assoc]; exact Nat.mul_lt_mul_of_pos_right hM2 (Nat.pow_pos (by decide))
+  have hkey : n.exponent + T + 1 - (sig.length : Int) = n.explicitExp - (fl : Int) := by omega
+  have hV : litFrac 10 10 (numberLit c n) = (S * 10 ^ n.explicitExp.toNat, 10 ^ fl * 10 ^ (-n.explicitExp).toNat) := by
+    rw [litFrac_eq, hD, hfl, hE]
+  have hwd : 0 < (powFrac 10 n.exponent n.mantissa).2 := powFrac_den_pos (by decide) _ _
+  have hm36 : fp.mant + 4 ≤ 36 * n.mantissa := by
+    have := hest.2.1
+    have h18 : (2 : Nat) ^ 64 + 4 ≤ 36 * 10 ^ 18 := by decide
+    omega
+  constructor
+  · constructor
+    · rw [hr]; exact envRadix_decimal c.feats
+    · rw [hr]; exact hd
+    · exact hs.validInt
+    · exact hs.validFrac
+    · rw [hsig]; exact hne
+    · rw [hsig]; exact hbs
+    · rw [hsci]; omega
+    · rw [hsci]; omega
+    · -- value
+      rw [hr, hb, hsig, hsci]
+      unfold C01Slow.sigValue C01Slow.digitExponent
+      rw [hV, powFrac_eq, hS]
+      unfold RatEq
+      simp only
+      have e1 : n.explicitExp.toNat + (-(n.exponent + ↑T + 1 - ↑sig.length)).toNat =
+          (n.exponent + ↑T + 1 - ↑sig.length).toNat + (fl + (-n.explicitExp).toNat) := by omega
+      calc S * 10 ^ n.explicitExp.toNat * 10 ^ (-(n.exponent + ↑T + 1 - ↑sig.length)).toNat
+          = S * 10 ^ (n.explicitExp.toNat + (-(n.exponent + ↑T + 1 - ↑sig.length)).toNat) := by
+            rw [Nat.pow_add]; ring
+        _ = S * 10 ^ ((n.exponent + ↑T + 1 - ↑sig.length).toNat + (fl + (-n.explicitExp).toNat)) := by rw [e1]
+        _ = S * 10 ^ (n.exponent + ↑T + 1 - ↑sig.length).toNat * (10 ^ fl * 10 ^ (-n.explicitExp).toNat) := by
+            rw [Nat.pow_add, Nat.pow_add]; ring
+    · rw [hsig]; exact hfew
+    · -- the capacity guard of `positive_digit_comp`
+      rw [hr, hsig, hsci, hmo]
+      intro hpos
+      unfold C01Slow.digitExponent at hpos ⊢
+      simp only at hpos ⊢
+      exact C01Slow.positive_guard_decimal (envRadix_decimal c.feats) hMlt (by omega)
+    · -- negative exponent
+      rw [hr, hsig, hsci, hmo]
+      intro hneg
+      have hfin' := hfin (by rw [hsci, hmo]; exact hneg)
+      unfold C01Slow.digitExponent at hneg ⊢
+      simp only at hneg ⊢
+      have hest' := hest
+      obtain ⟨f1, f2, f3, f4, _, _⟩ := hest'
+      refine ⟨f1, f2, by show fp.exp - invalidFp < 2 ^ 20; omega, hfin', ?_⟩
+      -- the estimate is a 40-estimate of `M / 10^j`
+      obtain ⟨i1, i2⟩ := interval_core M n.mantissa (cnt - 19) 0 n.exponent (n.exponent + ↑T + 1 - (cnt : Int))
+        hM1 hM2 hw0 (by omega)
+      have hW := estW_widen _ _ _ _ n.mantissa hest hm36 hw0 hwd i1 i2
+      have hdz : (n.exponent + ↑T + 1 - (cnt : Int)).toNat = 0 := by omega
+      rw [hdz] at hW
+      simp only [Nat.pow_zero, Nat.mul_one, Nat.one_mul] at hW
+      obtain ⟨_, _, _, _, lo, hi⟩ := hW
+      obtain ⟨kq1, kq2⟩ := roundedDown_kq lay { mant := fp.mant, exp := fp.exp - invalidFp } f1 f2 hfin'
+      simp only at kq1 kq2
+      -- `Q = 0` only with `K = 0`
+      have hQ0 : fp.mant / 2 ^ shiftOf p (fp.exp - invalidFp) = 0 → (fp.exp - invalidFp + 64 - ↑p - 1).toNat = 0 := by
+        intro h0
+        by_cases hp2 : -(fp.exp - invalidFp) + 1 ≤ 64
+        · obtain ⟨qa, _, _, _, _⟩ := LexVerif.Proof.BinaryCorrect.quot_bounds hp (by omega) f1 f2 (fp.exp - invalidFp) hp2
+          apply Classical.byContradiction; intro hK
+          have := (qa (by omega)).2.1
+          have := Nat.two_pow_pos (p - 1)
+          omega
+        · omega
+      have hS3 : 64 - p ≤ shiftOf p (fp.exp - invalidFp) := by
+        unfold shiftOf; split <;> omega
+      have hS40 : 40 ≤ 2 ^ shiftOf p (fp.exp - invalidFp) := by
+        calc 40 ≤ 2 ^ 11 := by decide
+          _ ≤ 2 ^ shiftOf p (fp.exp - invalidFp) := Nat.pow_le_pow_right (by decide) (by omega)
+      have hQ53 : fp.mant / 2 ^ shiftOf p (fp.exp - invalidFp) < 2 ^ 53 := by
+        have : 2 * 2 ^ (p - 1) ≤ 2 ^ 53 := by
+          rw [← Nat.pow_succ']
+          exact Nat.pow_le_pow_right (by decide) (by omega)
+        omega
+      have hLb : (F.C.exponentBias : Int) = (L F.fmt : Int) + 1 := by
+        rw [lay.bias, LexVerif.Proof.BinaryCorrect.L_eq lay]
+        have := lay.hL127
+        omega
+      have hcap := cap_ge c.feats
+      have hcapp : 2 ^ 3968 ≤ 2 ^ (64 * (Slow.envOf c.feats).L.bigintLimbs) :=
+        Nat.pow_le_pow_right (by decide) (by omega)
+      generalize hj : (-(n.exponent + ↑T + 1 - (cnt : Int))).toNat = j at *
+      generalize hK : (fp.exp - invalidFp + 64 - ↑p - 1).toNat = K at *
+      generalize hQ : fp.mant / 2 ^ shiftOf p (fp.exp - invalidFp) = Q at *
+      obtain ⟨g1, g2⟩ := neg_guard_bounds Q K (shiftOf p (fp.exp - invalidFp)) fp.mant M j (L F.fmt)
+        ((K : Int) - F.C.exponentBias - (n.exponent + ↑T + 1 - (cnt : Int))) (by omega) hQ.symm hS40 hQ0 hQ53
+        (by omega) hM769 lo hi
+      unfold C01Slow.NegGuard
+      simp only [hK, hQ, hj]
+      exact ⟨Nat.lt_of_lt_of_le g1 hcapp, Nat.lt_of_lt_of_le g2 hcapp⟩
+  · -- the bracket
+    obtain ⟨i1, i2⟩ := interval_core S n.mantissa (sig.length - 19) fl n.exponent n.explicitExp hS1 hS2 hw0 (by omega)
+    have hW := estW_widen _ _ _ _ n.mantissa hest hm36 hw0 hwd i1 i2
+    rw [hV]
+    exact bracket_of_estW lay 40 hc80 fp _ _
+      (Nat.mul_pos (Nat.pow_pos (by decide)) (Nat.pow_pos (by decide))) hW
+
 end LexVerif.Props.C01Trunc
